@@ -406,7 +406,11 @@ class Mitochondria:
         """
         result = self.metabolize(expression, MetabolicPathway.GLYCOLYSIS)
         if result.success and result.atp:
-            return str(result.atp.value)
+            try:
+                return str(result.atp.value)
+            except Exception as e:
+                # e.g. ValueError: an int with more than 4300 digits cannot be converted to str
+                return f"Metabolic Failure: result cannot be rendered as text ({type(e).__name__})"
         return f"Metabolic Failure: {result.error}"
 
     def _detect_pathway(self, expression: str) -> MetabolicPathway:
